@@ -53,7 +53,9 @@ def make_label(ctx, rng, name):
     rows = [bytes(rng.getrandbits(8) for _ in range(160 * 4)) for _ in range(205)]
     path = os.path.join(ctx.tmp, name)
     with open(path, 'wb') as fh:
-        png.Writer(160, 205, greyscale=False, alpha=True, bitdepth=8).write(fh, [bytearray(r) for r in rows])
+        # (a picture saved by an image editor usually carries ancillary chunks — gAMA, bKGD — that say nothing about the pixels)
+        extra = rng.choice([{}, {}, {'gamma': 2.2}, {'background': (1, 2, 3)}, {'compression': 9}, {'gamma': 0.45455, 'background': (0, 0, 0)}])
+        png.Writer(160, 205, greyscale=False, alpha=True, bitdepth=8, **extra).write(fh, [bytearray(r) for r in rows])
     return path, rows
 
 
@@ -165,7 +167,7 @@ def check_cart(ctx, res, code, regs, version, label, tag, batch, label_rows_defa
         batch.append(('frompixels 160 ' + hx(flat), exp, {'op': 'frompixels', 'code': hx(code1)[:60]}))
 
 
-def tune_compressed(ctx, rng, target):
+def tune_compressed(ctx, rng, target, head=b''):
     """Code that is stored compressed and whose compressed stream is `target` bytes long (found with the fast Lean model of
     compress_code; the implementation is then run on it once). None if the model is unavailable or tuning does not converge."""
     if not ctx.model.available:
@@ -175,7 +177,7 @@ def tune_compressed(ctx, rng, target):
     tail = b'\n' + b'a' * 400 + b'\n'
     n = target - 40
     for _ in range(12):
-        code = b'--' + pool[:n] + tail
+        code = head + b'--' + pool[:n] + tail
         out = ctx.model.run(['comp ' + hx(code)])[0]
         ln = (len(out) - 3) // 2
         if ln == target:
@@ -249,6 +251,14 @@ def run(ctx, res):
         if c is not None:
             codes.append(c)
             res.count('tuned-compressed-size')
+    # the same for code that mentions _update60 (its stream carries PICO-8's compatibility line as well: that is part of the stream
+    # and has to fit like the rest), up to a few dozen bytes beyond the area
+    for target in ([AREA - 8, AREA - 7 + rng.randrange(0, 30), AREA + 32 + rng.randrange(0, 40)] if not ctx.thorough() else
+                   [AREA - 9, AREA - 8, AREA - 7, AREA, AREA + 20, AREA + 37, AREA + 45, AREA + 60, AREA + 70, AREA + 90]):
+        c = tune_compressed(ctx, rng, target, head=b'function _update60() x=1 end\n')
+        if c is not None:
+            codes.append(c)
+            res.count('tuned-compressed-size-update60')
     # text that fits as it is and whose compressed stream is only a few bytes shorter: with the 8-byte header the compressed form
     # is no gain (and next to the area size it would not fit at all)
     for length, gain in ([(AREA, 1), (AREA - 3, 5), (AREA, 8)] if not ctx.thorough() else
